@@ -15,6 +15,51 @@ CHECKS = {
     note="Trusts vt/ref/c608_table.py as the statement of CEA-608; glyph-ambiguous extended cells accept several code points.",
     design="DESIGN.md section 4, C17"),
 }
+CHECKS.update({
+  "C12": dict(
+    technique="runtime monitoring: postcondition monitors re-bound onto SmpteTimeCode/ClockTime (reference: integer-only SMPTE 12M arithmetic) + exhaustive frame-count driver",
+    text="Monitors on from_frames/to_frames/to_temporal_offset/from_seconds/add_frames/ClockTime.from_seconds compare every call with "
+         "integer-only SMPTE ST 12-1 arithmetic; the driver enumerates every frame count of 24 h for 8 rates in the thorough tier (exhaustive) "
+         "and the drop-frame/minute/hour neighbourhoods plus strides in the quick tier, plus str/parse, exact-boundary from_seconds (Fraction and "
+         "dyadic floats), k-step addition, IMSC frame attributes and a dense ClockTime grid with monotonicity.",
+    note="Trusts vt/ref/timecode.py; 24000/1001 judged for identity/monotonicity/ranges/offset only; non-boundary floats only within one frame.",
+    design="DESIGN.md section 4, C12"),
+  "C01": dict(
+    technique="runtime monitoring: reference-model oracle (TTML2 ISD construction over a plain snapshot of the document) on every ISD.from_model execution, cached and uncached",
+    text="An independent ISD constructor written from TTML2 11.3.1.3/12.4 predicts, for generated documents (timed regions, nested content, "
+         "ruby, region references at any level, display styles/animations/initial values) and every boundary instant +- delta, which elements, "
+         "text tokens and line breaks each region shows; each real snapshot (plain and SignificantTimes-accelerated) is compared node by node.",
+    note="Trusts vt/ref/isd.py; childless Rb/Rbc and content-less regions not judged; white space compared as tokens (exact white space in C13).",
+    design="DESIGN.md section 4, C01"),
+  "C03": dict(
+    technique="runtime monitoring: reference style-resolution oracle compared with get_style() on every element of every generated snapshot",
+    text="Reference style resolution (animation > specified > inherited > initial > default, per-component textDecoration, ruby half size, "
+         "writing-mode implied direction, all length conversions, position/origin/extent/padding axis rules) written from TTML2/IMSC is compared "
+         "with every applicable property of every snapshot element; evidence lists the compared (kind, property, source) triples.",
+    note="Abstains where TTML2 is ambiguous (listed in evidence assumptions); tolerance 1e-9.",
+    design="DESIGN.md section 4, C03"),
+  "C13": dict(
+    technique="runtime monitoring: invariant walker over every node/style of every snapshot + white-space reference",
+    text="Every snapshot produced by the workload is walked: no timing/animation/region refs, ownership by the ISD, content model, applicable "
+         "styles only and all of them, all lengths in rh/rw, origin == position, no display none, no empty text / childless span, white space per "
+         "xml:space against a reference, document parameters, content-less regions only with showBackground always.",
+    note="Applicability tables from TTML2/IMSC 'Applies to'; ruby containers may carry the reduced or the span set; mixed xml:space paragraphs not judged for white space.",
+    design="DESIGN.md section 4, C13"),
+  "C10": dict(
+    technique="runtime monitoring: grammar-generated SubRip files with the generator's AST (cross-checked by an independent strict parser) as oracle over srt.reader.to_model, plus writer->reader and IMSC frames composition",
+    text="Generated SRT files (counters, blank runs, 2-3 digit hours, 1-5 lines, nested/adjacent tags in both syntaxes, LF/CRLF) are read by the real "
+         "reader; paragraph times must be the printed rationals (never floats), lines/br in order, per-character bold/italic/underline/color equal to "
+         "the AST, frame-based IMSC output lands on the intended frame, and the writer's own output reads back.",
+    note="Abstains on unknown/unbalanced tags, markup-significant characters in text, missing counters (de-facto grammar).",
+    design="DESIGN.md section 4, C10"),
+  "C19": dict(
+    technique="runtime monitoring: differential oracle (tt.main bytes vs harness composition of reader/filters/writer), documented-values table from README, hash-seed subprocess sweep and in-process conversion histories",
+    text="tt convert is executed in-process for all 5x3 format pairs and option sets; the written bytes must equal the harness's own composition; type "
+         "inference, config precedence, document_lang, error exits without output file, acceptance/rejection of documented configuration values, "
+         "independence from PYTHONHASHSEED, progress/log settings and conversion order are observed.",
+    note="Trusts the real readers/writers (the property is about the CLI layer); abstentions listed in evidence assumptions; histories sampled.",
+    design="DESIGN.md section 4, C19"),
+})
 NOT_CLAIMED = {}
 
 def main():
